@@ -1,8 +1,39 @@
-(** C04 — property theorems (statements only; proofs are in C04/Proofs.v). *)
-From Coq Require Import List Arith NArith Lia.
+(** C04 — property theorems (statements only; proofs are in C04/Proofs.v).
+    Every statement is quantified over the regex oracle [re_match]. *)
+From Coq Require Import List Arith NArith ZArith Lia.
 From SV Require Import Common.Trie C04.Model C04.Proofs.
 Import ListNotations.
 
-Theorem split_last_partitions :
-  forall c l p s, split_last c l = Some (p, s) -> l = p ++ s.
-Proof. exact split_last_app. Qed.
+(** Within one host leaf, [Router::lookup]'s selection loop returns a matching
+    rule of maximal rank (EQUALS > REGEX > longest PREFIX, then method-specific
+    > method-agnostic), or nothing when no rule matches — for every rule list,
+    path and method. *)
+Theorem selection_is_documented_choice :
+  forall re_match path m rules,
+    is_best re_match path m rules (select_loop re_match rules path m (0, 0, 0)%nat None).
+Proof. exact select_is_best. Qed.
+
+(** The choice depends on the *set* of rules only (any two lists with the same
+    members give the same answer), provided no two matching rules of equal rank
+    decide differently. *)
+Theorem selection_order_independent :
+  forall re_match path m rules rules',
+    (forall e, In e rules <-> In e rules') -> no_ties re_match path m rules ->
+    select_loop re_match rules path m (0, 0, 0)%nat None = select_loop re_match rules' path m (0, 0, 0)%nat None.
+Proof. exact select_order_independent. Qed.
+
+(** ... and the only ties possible between two distinct (path, method) rules
+    are between two REGEX rules, which the documentation leaves undefined. *)
+Theorem ties_only_between_regex_rules :
+  forall re_match path m p1 m1 p2 m2 rk,
+    rule_rank re_match p1 m1 path m = Some rk -> rule_rank re_match p2 m2 path m = Some rk ->
+    (p1, m1) <> (p2, m2) -> p_kind p1 = PRegex /\ p_kind p2 = PRegex.
+Proof. exact tie_only_regex. Qed.
+
+(** non-vacuity: EQUALS beats an agnostic PREFIX of the full path, in both orders *)
+Example selection_nonvacuous :
+  let eq := (mkprule PEquals [47; 97]%N, None, mkroute (Some [1%N]) 0%Z false) in
+  let pre := (mkprule PPrefix [47; 97]%N, Some [71]%N, mkroute (Some [2%N]) 0%Z false) in
+  select_loop (fun _ _ => false) [eq; pre] [47; 97]%N [71]%N (0, 0, 0)%nat None = Some (mkroute (Some [1%N]) 0%Z false) /\
+  select_loop (fun _ _ => false) [pre; eq] [47; 97]%N [71]%N (0, 0, 0)%nat None = Some (mkroute (Some [1%N]) 0%Z false).
+Proof. split; reflexivity. Qed.
